@@ -319,7 +319,8 @@ fn failing_call(rng: &mut Rng, s: &Schema, chain: &[u64]) -> Option<WOp> {
         5 => { // End of a master that is not the innermost open one (or nothing open)
             let cand: Vec<u64> = masters.iter().map(|e| e.id).filter(|id| chain.last() != Some(id)).collect();
             if cand.is_empty() { return None; }
-            Some(t(end(*rng.pick(&cand))))
+            // (a size option on an End means nothing - it must not leak anywhere either)
+            Some(WOp::Tag { tag: end(*rng.pick(&cand)), width: *rng.pick(&[0usize, 0, 1, 2, 8]), unknown: false })
         }
         _ => { // Full master allowed here but with an invalid child (at depth 1 or 2)
             let ok: Vec<&&dynspec::Entry> = masters.iter().filter(|e| gen::matches(&e.path, chain)).collect();
@@ -418,6 +419,46 @@ pub fn calls(out: &mut Out, rng: &mut Rng, count: usize) {
     }
 }
 
+/// C10: flush() / into_inner() while masters (known- and unknown-size, in any nesting) are still open, then a second
+/// document from the root: both close every open master and deliver everything
+pub fn flush_open(out: &mut Out, rng: &mut Rng, count: usize) {
+    let mut n = 0usize;
+    for i in 0..count {
+        let s = pick_schema(rng, i);
+        let mut mk = |rng: &mut Rng| {
+            let mut doc = gen::rand_doc(rng, &s, &DocOpts { max_tags: 10, ..Default::default() });
+            for d in doc.iter_mut() { plain(d); fit_widths(rng, d); }
+            let flat = gen::flat_index(&doc); let want: Vec<bool> = (0..flat.len()).map(|_| rng.chance(1, 2)).collect(); gen::assign_unknown(&mut doc, &s, &want);
+            let fullset: Vec<bool> = (0..64).map(|_| rng.chance(1, 5)).collect();
+            let pick_full = move |p: &[usize]| fullset[(p.iter().sum::<usize>() + p.len() * 7) % 64];
+            ops_of(&doc, &pick_full, false)
+        };
+        let first = mk(rng);
+        // cut where at least one master is open
+        let mut depth = 0usize; let mut cuts: Vec<usize> = Vec::new();
+        for (k, op) in first.iter().enumerate() {
+            match op { WOp::Tag { tag, .. } => match &tag.v { DynVal::M(Master::Start) => depth += 1, DynVal::M(Master::End) => depth -= 1, _ => {} }, WOp::StartUnknownDeprecated { .. } => depth += 1, _ => {} }
+            if depth > 0 { cuts.push(k + 1); }
+        }
+        if cuts.is_empty() { continue; }
+        let cut = *rng.pick(&cuts);
+        let mut ops: Vec<WOp> = first[..cut].to_vec();
+        if rng.chance(1, 4) { ops.push(WOp::IntoInner); }
+        else {
+            // the second document must not start with a global element: directly after the (byte-less) end of an
+            // unknown-size master no reader can tell it from more content of that master (the ambiguity C07 excludes)
+            let named_first = |ops: &[WOp]| match ops.first() { Some(WOp::Tag { tag, .. }) => s.get(tag.id).map(|e| e.path.iter().all(|p| matches!(p, ebml_iterable::specs::PathPart::Id(_)))).unwrap_or(false), _ => false };
+            let mut second = mk(rng); let mut tries = 0;
+            while !named_first(&second) && tries < 10 { second = mk(rng); tries += 1; }
+            if !named_first(&second) { continue; }
+            ops.push(WOp::Flush); ops.extend(second); ops.push(if rng.chance(1, 2) { WOp::Flush } else { WOp::IntoInner });
+        }
+        begin(out, &mut n, &s, "stream", json!({}));
+        run_writer(out, "flush_open", &ops, rand_sink(rng));
+        out.ev(json!({"ev":"end"}));
+    }
+}
+
 /// C02: streams the strict reader accepts -> re-written -> read again
 pub fn fix(out: &mut Out, rng: &mut Rng, count: usize) {
     let mut n = 0usize;
@@ -450,6 +491,7 @@ pub fn run(out: &mut Out, which: &str, seed: u64, thorough: bool) {
         "present" => present(out, &mut rng, 150 * k),
         "calls" => calls(out, &mut rng, 400 * k),
         "widths" => widths(out, &mut rng, 60 * k),
+        "flush_open" => flush_open(out, &mut rng, 300 * k),
         "fix" => fix(out, &mut rng, 500 * k),
         x => panic!("unknown writer driver {x}"),
     }
